@@ -41,7 +41,7 @@ def _normal_script(r, z):
 
 
 def gen_case(case_seed, cfg):
-    case = c06.gen_case(case_seed, cfg, modes=MODES, delays_in_plain=False)
+    case = c06.gen_case(case_seed, cfg, modes=MODES, delays_in_plain=False, nonuniform_p=0.0)
     r = seeds.rng(case_seed, "c11")
     grid = case["grid"]
     horizon = grid[-1]
